@@ -60,12 +60,14 @@ Proof. exact final_classes. Qed.
 Print Assumptions C38_final_classes.
 
 (* stream exchange: at most two requests; a second one only after a 413 answer to the first (and a
-   successful externalisation); cancel: at most one, none once the session is cancelled *)
+   successful externalisation); none on a finished or cancelled session; cancel: at most one, none
+   once the session is cancelled *)
 Theorem C38_exchange_cancel_once_plus_413 : forall st fs ext_ok,
   ((xsends (exchange st fs ext_ok) <= 2)%nat /\
    (xsends (exchange st fs ext_ok) = 2%nat ->
-      st = true /\ ext_ok = true /\ exists h, nth 0 fs dflt_outcome = OResp 413 h) /\
-   (st = true -> (1 <= xsends (exchange st fs ext_ok))%nat)) /\
+      st = SLive /\ ext_ok = true /\ exists h, nth 0 fs dflt_outcome = OResp 413 h) /\
+   (st = SLive -> (1 <= xsends (exchange st fs ext_ok))%nat) /\
+   (st <> SLive -> xsends (exchange st fs ext_ok) = 0%nat)) /\
   ((xsends (cancel st fs) <= 1)%nat /\ xsends (cancel (cancel_state_after st) fs) = 0%nat).
 Proof. intros st fs ext_ok. split; [apply exchange_once_plus_413 | apply cancel_once]. Qed.
 Print Assumptions C38_exchange_cancel_once_plus_413.
@@ -106,7 +108,12 @@ Example C38_ex_proto_other :
   sends (request_with_retry default_config ex_jit [OProtoOther; OResp 200 RAabsent]) = 1%nat.
 Proof. vm_compute; reflexivity. Qed.
 (* exchange: 502 is not resent, 413 is resent once, even if the resend answers 413 or 502 again *)
-Example C38_ex_exchange_502 : xsends (exchange true [OResp 502 RAabsent; OResp 200 RAabsent] true) = 1%nat.
+Example C38_ex_exchange_502 : xsends (exchange SLive [OResp 502 RAabsent; OResp 200 RAabsent] true) = 1%nat.
 Proof. reflexivity. Qed.
-Example C38_ex_exchange_413 : xsends (exchange true [OResp 413 RAabsent; OResp 413 RAabsent; OResp 200 RAabsent] true) = 2%nat.
+Example C38_ex_exchange_413 : xsends (exchange SLive [OResp 413 RAabsent; OResp 413 RAabsent; OResp 200 RAabsent] true) = 2%nat.
 Proof. reflexivity. Qed.
+(* after cancel() nothing more is sent by exchange() or cancel() *)
+Example C38_ex_after_cancel :
+  xsends (exchange (cancel_state_after SLive) [OResp 200 RAabsent] true) = 0%nat /\
+  xsends (cancel (cancel_state_after SLive) []) = 0%nat.
+Proof. split; reflexivity. Qed.
